@@ -69,6 +69,7 @@ class Interp:
         self.calls = []
         self.last_return = None
         self.ret_counter = 0
+        self.bad_refs = []
 
     # ------------------------------------------------------------------ state helpers
     def method(self, name):
@@ -206,7 +207,8 @@ class Interp:
         f_locs = self._locs_foreign(tree, st, sub)
         for n in names:
             if "self." + n not in st["data"]:
-                raise AnalysisError("%s(%r) at %s references self.%s which is not a known field" % (which, s, self.site(node), n))
+                self.bad_refs.append((self.site(node), which, s, n))
+                f_locs = frozenset()
         fm = self.method(which)
         if fm is None:
             raise AnalysisError("method %s not found" % which)
